@@ -100,7 +100,7 @@ impl Engine for SlotEngine {
                 out.push(Case { lines });
             }
         }
-        let rounds = if tier == Tier::Quick { 3000 } else { 60000 };
+        let rounds = if tier == Tier::Quick { 3000 } else { 15000 };
         for mode in 0..3 {
             out.push(Case { lines: vec![format!("race {rounds} {mode}")] });
         }
